@@ -2,7 +2,7 @@
    ([conforms], judged against DOC_SCHEMA, which translate/c15_schema.py regenerates from
    json-schema.md on every run), and the well-formedness conditions on a process state under which
    the report is proved conformant ([wf_state]; evaluated on every real state by the driver). *)
-From RM Require Export C15.Model C15.SchemaDef Gen.C15Schema.
+From RM Require Export C15.Model C15.SchemaDef Gen.C15Schema Gen.C15Keys.
 Open Scope Z_scope.
 
 Definition is_lower_hexb (c : Z) : bool := ((48 <=? c) && (c <=? 57)) || ((97 <=? c) && (c <=? 102)).
@@ -59,6 +59,17 @@ Fixpoint sfind (k : list Z) (fs : list (list Z * schema)) : option schema :=
 Definition sub1 (s : schema) (k : list Z) : schema :=
   match s with SObj fs => match sfind k fs with Some t => t | None => SNever end | _ => SNever end.
 Definition item (s : schema) : schema := match s with SArr t => t | SMap t => t | _ => SNever end.
+
+(* every member name the document lists, at any level *)
+Fixpoint all_keys (s : schema) : list (list Z) :=
+  match s with
+  | SEnum _ alt => all_keys alt
+  | SArr t => all_keys t
+  | SMap t => all_keys t
+  | SObj fs => (fix go (fs : list (list Z * schema)) : list (list Z) :=
+                  match fs with [] => [] | (k, t) :: r => k :: all_keys t ++ go r end) fs
+  | _ => []
+  end.
 
 (* ------------------------------------------------------------------ well-formed states *)
 Definition u32b (n : Z) : bool := (0 <=? n) && (n <? two32).
